@@ -117,6 +117,31 @@ CHECKS["C16"] = {
     "note": TRUST + " Box/Vec allocate, free and report failure correctly; zero-size Boxes never touch the allocator.",
 }
 
+CHECKS["C17"] = {
+    "technique": "MIR shape rules on the serde impls: serializer-call skeleton, guard facts per CFG edge at the Ok construction, builder protocol and owner liveness on ?/unwind paths",
+    "text": "Static analysis of impl_serde.rs: serialize = serialize_tuple(N)?, one serialize_element per item of the full forward iteration of &self (passing that item), then end() - no other serializer entry point, hence no length prefix; deserialize = deserialize_tuple(N, visitor); visit_seq rejects up front only under size_hint = Some(n), n != N, reads one next_element()? per destination slot into that slot and counts it (builder protocol), constructs Ok only under position == N and, on every CFG edge into the success path, either the remaining-size hint equals the probe constant or the extra next_element::<Dummy>()? returned None, keeps the builder live (dropped) on every unwind and `?` path so the elements read so far are released exactly once, and reaches finish/array_assume_init only on the success path. PARTIAL: round-trip equality through a concrete format is a property of serializer/deserializer pairs executed on data and is not claimed.",
+    "design_ref": "DESIGN.md §3 C17",
+    "note": TRUST + " serde implementations honour their trait contracts; the probe constant Some(0) sits in a promoted constant whose value is not inspected.",
+}
+CHECKS["C18"] = {
+    "technique": "item facts (constness/visibility of the frozen const surface), const-qualification witnesses in const fn position (no evaluation), zero-count rule for const/run-time divergence intrinsics with a positive fixture, cross-referenced pointer/extent obligations",
+    "text": "PARTIAL CLAIM. Not decided: that the const evaluator accepts each call on the lattice of lengths, and that compile-time and run-time values agree - both are executions of the crate's MIR by an interpreter. Decided statically: every function of the frozen const surface (27 + const_default) is still `const fn` (and exported), each is called from a const fn witness (rustc's const-qualification, nothing is evaluated) with a reject twin calling a non-const fn, arr! expands in const fn position in all its forms; no body of the crate calls const_eval_select-style intrinsics, so compile time and run time execute the same MIR (the matcher is exercised on a positive fixture); and the UB-freedom obligations of the raw operations inside those const fns - the instances of C02.V/G/T, C10.C/F/X, C01.T, C03.A, which hold for all N and all slice lengths - are re-checked here.",
+    "design_ref": "DESIGN.md §3 C18, §4",
+    "note": TRUST + " The const evaluator's faithfulness to MIR semantics is trusted.",
+}
+CHECKS["C19"] = {
+    "technique": "delegation/pipeline shape on MIR (zeroize) + aggregate-operand rule on the DEFAULT constant bodies combined with the structural storage induction (const-default)",
+    "text": "Static analysis: zeroize() is as_mut_slice(self) (proved to be the full N-element view) -> iter_mut() -> <IterMut as Zeroize>::zeroize on exactly that iterator, no adaptor or sub-slice; each DEFAULT constant body is a single all-fields struct aggregate whose child operands are <U as ConstDefault>::DEFAULT and whose trailing element is <T as ConstDefault>::DEFAULT, with no call/cast/unsafe in the body, the wrapper's storage is <N::ArrayType<T> as ConstDefault>::DEFAULT, and const_default() returns Self::DEFAULT; with the storage-shape premises of C01.S (re-checked here) every one of the N slots is T::DEFAULT for every binary digit pattern of N, by induction. Agreement with Default::default() and the zeroized value of an element are facts about the element type.",
+    "design_ref": "DESIGN.md §3 C19",
+    "note": TRUST + " zeroize's IterMut impl and const-default's [T; 0] impl are trusted.",
+}
+CHECKS["C20"] = {
+    "technique": "analysis of macro EXPANSIONS: generated witness crate compiled by the driver; call-count and dominance-order rules on the witness MIR, aggregate operands, const-generic arguments; accept/reject length twins",
+    "text": "Static analysis of expansions: for every element count k (quick: 0..=12, 31..=33, 64, 100, 256; thorough: 0..=64, 100, 128, 255, 256), with and without trailing comma and in const fn position, the expanded list form calls each element expression exactly once on every path, in index order (dominance), passes an array aggregate whose operand i is the result of ei to from_array::<k> with N = U{k}; the repeat forms evaluate x() exactly once, repeat it by a `[v; n]` rvalue with n = N::USIZE (or the literal) and hand it to the size-guarded local const fn / from_array::<n>; box_arr! calls each element once in order into the vec! aggregate, counts the same k units and instantiates __from_vec_helper::<k> with N = U{k}, its repeat forms are from_elem(x(), n) -> try_from_vec -> unwrap; declared lengths type-check and off-by-one declarations are rejected (twins). Values equal the native literal because operand i = result of ei and from_array is a reinterpretation at offset 0.",
+    "design_ref": "DESIGN.md §3 C20",
+    "note": TRUST + " Language semantics of repeat expressions and vec! are trusted.",
+}
+
 NOT_APPLICABLE = {}
 
 PENDING = "check under construction in this round; see DESIGN.md"
